@@ -27,6 +27,24 @@ INTRINSIC_PROGRAMS = {
     "ieee": "program p_ieee\n  use, intrinsic :: ieee_arithmetic\n  implicit none\n  real :: x\n  x = ieee_value(x, ieee_quiet_nan)\n  if (ieee_is_nan(x)) print *, 'nan'\nend program p_ieee\n",
     "omp": "subroutine s_omp()\n  use omp_lib\n  implicit none\n  integer :: n\n  n = omp_get_max_threads()\n  call omp_set_num_threads(n)\nend subroutine s_omp\n",
 }
+# further valid programs (gfortran -std=f2008 accepts each): shapes on which a check could raise a false alarm
+VALID_EXTRA = {
+    # an interface body has implicit typing rules of its own: IMPLICIT NONE of the host does not reach into it
+    "iface_body_implicit": "module ibm\n  implicit none\n  interface\n    subroutine ext_s(a, n)\n      integer :: n\n    end subroutine ext_s\n"
+                           "    function ext_f(x)\n    end function ext_f\n  end interface\nend module ibm\n",
+    # the same dummy procedure name declared by a type statement + EXTERNAL statement in two procedures of one file
+    "external_in_two_procedures": "subroutine one(f, x)\n  implicit none\n  real f, x\n  external f\n  x = f(x)\nend subroutine one\n"
+                                  "subroutine two(f, y)\n  implicit none\n  external f\n  real f, y\n  y = f(y)\nend subroutine two\n",
+    # host association and shadowing in nested scopes
+    "block_shadow": "subroutine bs(n)\n  implicit none\n  integer :: n, k\n  k = n\n  block\n    real :: q\n    q = 1.0\n    block\n      integer :: r\n      r = k\n    end block\n  end block\n"
+                    "  block\n    integer :: q\n    q = 2\n  end block\nend subroutine bs\n",
+    # function result names, recursive functions, the function name used as result
+    "results": "module rm\n  implicit none\ncontains\n  recursive function fact(n) result(r)\n    integer, intent(in) :: n\n    integer :: r\n    if (n <= 1) then\n      r = 1\n    else\n      r = n * fact(n - 1)\n    end if\n"
+               "  end function fact\n  integer function twice(m)\n    integer, intent(in) :: m\n    twice = 2 * m\n  end function twice\nend module rm\n",
+    # a type reached through a USE rename and through IMPORT
+    "renamed_type": "module rtm\n  implicit none\n  type :: orig_t\n    integer :: c\n  end type orig_t\nend module rtm\nmodule rtu\n  use rtm, only: local_t => orig_t\n  implicit none\n  type(local_t) :: v\n"
+                    "  interface\n    subroutine takes(a)\n      import :: local_t\n      type(local_t) :: a\n    end subroutine takes\n  end interface\nend module rtu\n",
+}
 ORPHAN = "module orphan_mod\n  implicit none\n  type :: orphan_t\n    integer :: payload\n  end type orphan_t\nend module orphan_mod\n"
 
 OPEN = re.compile(r"^\s*(?:(\w+)\s*:\s*)?(module(?!\s+(?:procedure|subroutine|function))|submodule|program|block\s*$|do\b|if\b.*\bthen\s*$|select\b|associate\b|where\s*\([^)]*\)\s*$|interface\b|abstract\s+interface|enum\b|type(?!\s*\()(?!\s+is\b)\s*(?:,|::|\s\w))", re.I)
@@ -432,6 +450,10 @@ def main(ctx):
     tree_names = [f"tree:{b}:{i}" for b in range(1, tree_budget + 1) for i, _ in enumerate(c04.gen_files(b))]
     valid = [(n, t) for n, t in programs.PROGRAMS.items()] + list(INTRINSIC_PROGRAMS.items()) + [(n, base_text(n)) for n in tree_names]
     valid += [(n + "+limits", t) for n, t in programs.PROGRAMS.items()]
+    valid += list(VALID_EXTRA.items())
+    from . import c04 as _c04
+
+    valid += [("same_names:" + n, "\n".join(t for t, _, _ in lines) + "\n") for n, (lines, _) in _c04._collision_programs().items()]
     vacc = core.pmap(valid_case, valid, chunk=1, budget_s=60, label="C07/valid")
     ctx.add_family("valid", vacc)
     jobs = []
